@@ -218,6 +218,196 @@ def search_failing(rig, cfg, ser, rng, seconds, k):
     return None, tried
 
 
+
+# ----------------------------------------------------------------------------------------------- kept cubes
+SIG_KEPT = "c16:kept-cube-pooled-differs-from-serial"
+
+
+def _dense_of(cfg):
+    return [numpy.asarray(sp["arr"], dtype=numpy.int64).reshape([cfg["N"]] + list(sh)) for sp, sh in zip(cfg["dims"], cfg["shapes"])]
+
+
+def _cfg_with_dense(cfg, dense):
+    """the configuration whose dims are built from scratch (constructor, canonical entry order) from `dense`"""
+    dims = [{"arr": a.tolist(), "common": sp["common"], "how": "ctor", "order": None} for a, sp in zip(dense, cfg["dims"])]
+    return dict(cfg, dims=dims)
+
+
+def gen_change(rng, cfg, dense):
+    """a legitimate in-place change of one dimension of a live cube, as a JSON-able descriptor.  Index cube:
+    move-some (iindex.update moving a strict subset of a category's rows of one column to another EXISTING non-common
+    category: entry count preserved), move-common (to the common value: count preserved), move-all / move-new (entry
+    deleted / created: count changes), swap (dim[k1], dim[k2] exchanged by item assignment: count preserved).  Array
+    cube: cells of the dim array overwritten in place."""
+    ext = cfg["ishape"][0]
+    order = list(range(len(dense)))
+    rng.shuffle(order)
+    order.sort(key=lambda i: dense[i].ndim == 1)        # prefer multi-axis dims (their 1-D slices are separate objects)
+    kinds = ["move-some", "move-some", "swap", "move-common", "move-all", "move-new"]
+    rng.shuffle(kinds)
+    for di in order:
+        a, common = dense[di], cfg["dims"][di]["common"]
+        his = list(numpy.ndindex(*a.shape[1:]))
+        rng.shuffle(his)
+        for hi in his:
+            col = a[(slice(None),) + hi]
+            groups = {int(v): numpy.nonzero(col == v)[0].tolist() for v in set(col.tolist())}
+            stored = [v for v in groups if v != common]
+            for kind in kinds:
+                if cfg["kind"] == "xcube":
+                    rows = sorted(rng.sample(range(len(col)), rng.randint(1, max(1, len(col) // 3))))
+                    return {"dim": di, "op": "set", "hi": list(hi), "rows": rows, "dst": rng.randrange(ext), "class": "array-cells"}
+                big = [v for v in stored if len(groups[v]) >= 2]
+                if kind == "move-some" and big and len(stored) >= 2:
+                    src = rng.choice(big)
+                    dst = rng.choice([v for v in stored if v != src])
+                    rows = sorted(rng.sample(groups[src], rng.randint(1, len(groups[src]) - 1)))
+                    return {"dim": di, "op": "update", "hi": list(hi), "rows": rows, "dst": dst, "class": "move-some(count kept)"}
+                if kind == "move-common" and big:
+                    src = rng.choice(big)
+                    rows = sorted(rng.sample(groups[src], rng.randint(1, len(groups[src]) - 1)))
+                    return {"dim": di, "op": "update", "hi": list(hi), "rows": rows, "dst": common, "class": "move-to-common(count kept)"}
+                if kind == "swap" and len(stored) >= 2:
+                    x, y = rng.sample(stored, 2)
+                    return {"dim": di, "op": "swap", "hi": list(hi), "a": x, "b": y, "class": "swap-items(count kept)"}
+                if kind == "move-all" and len(stored) >= 2:
+                    src = rng.choice(stored)
+                    dst = rng.choice([v for v in stored if v != src])
+                    return {"dim": di, "op": "update", "hi": list(hi), "rows": groups[src], "dst": dst, "class": "move-all(entry deleted)"}
+                absent = [v for v in range(ext) if v not in groups and v != common]
+                if kind == "move-new" and absent and stored:
+                    src = rng.choice(stored)
+                    rows = sorted(rng.sample(groups[src], rng.randint(1, len(groups[src]))))
+                    return {"dim": di, "op": "update", "hi": list(hi), "rows": rows, "dst": rng.choice(absent), "class": "move-to-new(entry created)"}
+    return None
+
+
+def apply_change(cube, cfg, dense, ch):
+    """apply the descriptor to the LIVE cube's dimension object (in place) and to the dense bookkeeping arrays"""
+    di, hi = ch["dim"], tuple(ch["hi"])
+    dim = cube.dims[di]
+    a = dense[di]
+    if ch["op"] == "set":
+        dim[(ch["rows"],) + hi] = ch["dst"]
+        a[(ch["rows"],) + hi] = ch["dst"]
+    elif ch["op"] == "update":
+        dim.update({(ch["dst"],) + hi: numpy.array(ch["rows"], dtype=dim.rowid_dtype)})
+        a[(ch["rows"],) + hi] = ch["dst"]
+    else:
+        k1, k2 = (ch["a"],) + hi, (ch["b"],) + hi
+        r1, r2 = dim[k1], dim[k2]
+        dim[k1] = r2
+        dim[k2] = r1
+        col = a[(slice(None),) + hi]
+        m1, m2 = col == ch["a"], col == ch["b"]
+        col[m1] = ch["b"]
+        col[m2] = ch["a"]
+
+
+def kept_eval(rig, cube, cfg, run):
+    old = sys.getswitchinterval()
+    try:
+        if run["mode"] == "real":
+            sys.setswitchinterval(1e-6)
+        out = rig.calculate(cube, rig.funcs(cfg), run["mode"], poolsize=run.get("poolsize", 4), seed=run.get("seed", 0),
+                            p_switch=run.get("p_switch", 1.0), granularity="opcode", order=run.get("order"))
+        return cl.out_sig(out)
+    except Exception as e:
+        return "raised %s: %s" % (type(e).__name__, str(e)[:200])
+    finally:
+        sys.setswitchinterval(old)
+
+
+def kept_history(rig, cfg, steps):
+    """Replays a history on ONE long-lived cube object.  steps: list of {"change": descriptor | None, "runs": [run, ...]}.
+    After each change the same object is evaluated in the listed modes; every pooled result is compared with the serial
+    result of the same object in the same state (the property), the serial one with a freshly built cube on the current
+    dims (bookkeeping).  -> (first failure | None, counters)"""
+    cube = rig.cube(cfg)
+    dense = _dense_of(cfg)
+    if cfg["kind"] == "xcube":
+        dense = cube.dims            # the array cube holds the caller's arrays: they ARE the live dims
+    cnt = {"evaluations": 0, "pooled": 0, "serial_equals_fresh": 0, "serial_differs_from_fresh": 0}
+    for si, st in enumerate(steps):
+        if st["change"] is not None:
+            apply_change(cube, cfg, dense, st["change"])
+        fresh_cfg = _cfg_with_dense(cfg, [numpy.array(a) for a in dense])
+        fresh = kept_eval(rig, rig.cube(fresh_cfg), fresh_cfg, {"mode": "serial"})
+        results = []
+        for run in st["runs"]:
+            results.append((run, kept_eval(rig, cube, cfg, run)))
+            cnt["evaluations"] += 1
+        serial = [sig for run, sig in results if run["mode"] == "serial"]
+        ref = serial[0] if serial else fresh
+        cnt["serial_equals_fresh" if ref == fresh else "serial_differs_from_fresh"] += 1
+        for run, sig in results:
+            if run["mode"] != "serial":
+                cnt["pooled"] += 1
+                if sig != ref:
+                    what = ("pooled evaluation of a long-lived cube %s after step %d (%s) although the serial evaluation of the SAME object "
+                            "in the same state %s" % ("raised: " + sig if isinstance(sig, str) else "differs from", si,
+                                                      st["change"]["class"] if st["change"] else "no change",
+                                                      "agrees with a freshly built cube" if ref == fresh else "returns something else"))
+                    return {"step": si, "run": run, "what": what}, cnt
+    return None, cnt
+
+
+def kept_stream(rig, rng, n_scen, rounds):
+    """'kept cube' relations: scenarios x rounds of in-place changes on one cube object"""
+    total = {"scenarios": 0, "steps": 0, "evaluations": 0, "pooled": 0, "serial_equals_fresh": 0, "serial_differs_from_fresh": 0,
+             "changes": {}, "kinds": {}}
+    failures = []
+    for sc in range(n_scen):
+        kind = ["ccube", "xcube", "ccube"][sc % 3]
+        cfg = None
+        for _ in range(20):
+            # at least one multi-axis dimension; enough rows for categories with several rows
+            c = cl.gen_cfg(rng, kind, rng.choice([3, 4, 6, 8]), aggs=rng.choice(["one", "some"]), max_cells=1500, rows=(12, 24),
+                           extent=rng.choice([3, 4]))
+            if not isinstance(kept_eval(rig, rig.cube(c), c, {"mode": "serial"}), str):
+                cfg = c
+                break
+        if cfg is None:
+            continue
+        dense = _dense_of(cfg)
+        steps = []
+        for r in range(rounds + 1):
+            ch = gen_change(rng, cfg, dense) if r > 0 else None
+            if r > 0 and ch is None:
+                break
+            if ch is not None:
+                # keep the bookkeeping arrays in step so that the next change is generated from the current state
+                _apply_dense_only(dense, ch)
+                total["changes"][ch["class"]] = total["changes"].get(ch["class"], 0) + 1
+            def prun():
+                return {"mode": "det", "poolsize": rng.randint(1, 16), "seed": rng.randrange(1 << 30), "p_switch": rng.choice([0.05, 0.3, 1.0])}
+            runs = [prun(), {"mode": "serial"}, {"mode": "real", "poolsize": rng.randint(1, 8)}, prun()]
+            if r % 2:
+                runs.insert(0, {"mode": "serial"})        # sometimes the serial evaluation comes first
+            steps.append({"change": ch, "runs": runs})
+        fail, cnt = kept_history(rig, cfg, steps)
+        total["scenarios"] += 1
+        total["steps"] += len(steps)
+        total["kinds"][kind] = total["kinds"].get(kind, 0) + 1
+        for k_ in ("evaluations", "pooled", "serial_equals_fresh", "serial_differs_from_fresh"):
+            total[k_] += cnt[k_]
+        if fail is not None:
+            failures.append((cfg, steps[:fail["step"] + 1], fail))
+    return failures, total
+
+
+def _apply_dense_only(dense, ch):
+    hi = tuple(ch["hi"])
+    a = dense[ch["dim"]]
+    if ch["op"] in ("set", "update"):
+        a[(ch["rows"],) + hi] = ch["dst"]
+    else:
+        col = a[(slice(None),) + hi]
+        m1, m2 = col == ch["a"], col == ch["b"]
+        col[m1] = ch["b"]
+        col[m2] = ch["a"]
+
+
 # ----------------------------------------------------------------------------------------------- the check
 def run(ctx):
     global _RIG
@@ -235,7 +425,10 @@ def run(ctx):
                 "sum, mean} (+ {stddev, quantile, min, max, covariance, corrcoef} for the array cube) singly, 2-4 together and all "
                 "together, both missing policies, three report formats; per configuration: every task alone on two garbage fills, one "
                 "logged + N plain runs under the seeded bytecode-level scheduler (pool sizes 1..16, p_switch 1/0.3/0.05), whole-task "
-                "permutations, real ThreadPool under switch interval 1e-6.  A configuration is distinct by its content hash and "
+                "permutations, real ThreadPool under switch interval 1e-6; 'kept cube' stream: one long-lived cube object (12..24 rows) evaluated "
+                "pooled (seeded scheduler, real pool) and serially before and after 4 rounds of legitimate in-place changes of its dims (iindex.update "
+                "moving some / all rows to an existing / new / the common category, item swap; array cells), pooled vs serial of the same object "
+                "and vs a freshly built cube.  A configuration is distinct by its content hash and "
                 "non-trivial when its logged scheduled run really interleaved the writes of different tasks")
     ctx.trusted = list(core.STD_TRUSTED) + [
         "NOT proved, validated at run time on every configuration: a real sub-cube task only writes cells of its own block and never "
@@ -351,6 +544,12 @@ def run(ctx):
                     oracle_hits.append((ci, run, "output differs bit-wise from the serial output", SIG_DIFF))
     t_sched = time.time() - t1
 
+    # 'kept cube' relations stream: one long-lived cube object, pooled and serial evaluations before / after in-place changes
+    t2 = time.time()
+    kept_fail, kept_total = kept_stream(rig, rng, 45 if thorough else 15, 4)
+    kept_total["wall_s"] = round(time.time() - t2, 1)
+    ctx.evaluations += kept_total["evaluations"]
+
     res = core.run_cases("c16", "From Catii Require Import Conc.Interleave Conc.Check.", lits, "c16case", "c16_check", "c16_explain",
                          shard_size=max(1, (len(lits) + 15) // 16), timeout=900)
     ctx.coverage.update({
@@ -367,11 +566,18 @@ def run(ctx):
         "tasks_run_alone_on_garbage": sum(len(ob["coords"]) for ob in obs) * 2,
         "configurations_with_interleaved_writes_in_logged_run": sum(1 for ob in obs if ob["interleaved"]),
         "coq_cases": res.total, "traces_validated_against_impl": res.total,
+        "kept_cube_stream": kept_total,
         "exhaustive": False,
         "timing_s": {"observe": round(t_obs, 1), "schedules": round(t_sched, 1)},
         "tie": "W2 footprint (alone-on-garbage + assignment log, footprints_ok_b inside Coq) + seeded bytecode scheduler; oracle = bitwise equality with the serial run",
     })
 
+    if kept_fail:
+        cfg, steps, fail = min(kept_fail, key=lambda t: (len(t[1]), cl.estimate_cells(t[0])))
+        ctx.report(SIG_KEPT, fail["what"] + " (%s, %s)" % (cfg["kind"], [a["name"] for a in cfg["aggs"]]),
+                   {"cfg": cfg, "history": steps, "failing_step": fail["step"], "failing_run": fail["run"], "failing_scenarios": len(kept_fail),
+                    "oracle": "same cube object, same state: pooled calculate output vs serial calculate output, bit for bit"})
+        return
     if raised_cfgs:
         cfg, ob = min(raised_cfgs, key=lambda t: cl.estimate_cells(t[0]))
         ctx.report(SIG_DIFF, "pooled evaluation raised %s although the serial evaluation of the same cube returned (%s, %s)"
@@ -421,6 +627,19 @@ def replay(ctx, path):
     rig = cl.Rig(ctx)
     ctx.level = "exploration"
     ctx.rule = "replay of a recorded configuration and schedule: pooled output vs serial output, bit for bit"
+    if "history" in r:
+        ctx.rule = "replay of a recorded history on one long-lived cube object: pooled vs serial evaluation of the same object"
+        ctx.nontrivial.add(1)
+        for attempt in range(20):          # histories contain real-pool runs; scheduled runs are deterministic
+            fail, cnt = kept_history(rig, r["cfg"], r["history"])
+            ctx.evaluations += cnt["evaluations"]
+            if fail:
+                break
+        print("replay:", fail["what"] if fail else "pooled = serial at every step")
+        ctx.samples.append({"cfg": r["cfg"], "steps": len(r["history"])})
+        if fail:
+            ctx.report(r.get("signature", SIG_KEPT), fail["what"], {"cfg": r["cfg"], "history": r["history"], "failing_step": fail["step"], "failing_run": fail["run"]})
+        return
     cfg, run = r["cfg"], r.get("run") or {"mode": "order", "order": None}
     ser = cl.out_sig(rig.calculate(rig.cube(cfg), rig.funcs(cfg), "serial"))
     ctx.evaluations += 1
